@@ -2706,6 +2706,15 @@ func (t *Terminal) printHeaderImpl(window tui.Window, borderShape tui.BorderShap
 	// Wrapping is not supported for header
 	wrap := t.wrap
 
+	// The list leaves room for --header-lines lines even if fewer have been
+	// read. Print the rest as blank lines so that nothing stays there.
+	if window == nil && !t.headerLinesShape.Visible() && len(lines2) < t.headerLines {
+		lines2 = append([]string{}, lines2...)
+		for len(lines2) < t.headerLines {
+			lines2 = append(lines2, "")
+		}
+	}
+
 	// Align header with the list
 	//   fzf --header-lines 3 --style full --no-list-border
 	//   fzf --header-lines 3 --style full --no-header-border
